@@ -504,7 +504,7 @@ func (in *Interp) reportViolation(kind, msg, site string) {
 	inputs, ufs, _, ok := in.model()
 	v := &Violation{Harness: in.harness, Msg: msg, Site: site, Kind: kind, Decision: append([]Decision(nil), in.dec...), Stack: in.stackTrace()}
 	for _, d := range in.dec {
-		if d.Kind == "sc" {
+		if d.Kind == "sc" || d.Kind == "sl" {
 			v.Scheduled = true
 		}
 	}
@@ -527,6 +527,11 @@ func (in *Interp) pathWitness() *CoverWitness {
 		return nil
 	}
 	w := &CoverWitness{Inputs: inputs, UFTable: ufs}
+	for _, d := range in.dec {
+		if d.Kind == "sc" || d.Kind == "sl" {
+			w.Scheduled = true
+		}
+	}
 	for _, o := range in.obs {
 		line := o.tag
 		for _, t := range o.vals {
@@ -552,7 +557,7 @@ func (e *Engine) ReplayConcrete(h *HarnessSpec, v *Violation, lim Limits) bool {
 	defer solver.Close()
 	var prefix []Decision
 	for _, d := range v.Decision {
-		if d.Kind == "ch" || d.Kind == "sc" {
+		if d.Kind == "ch" || d.Kind == "sc" || d.Kind == "sl" {
 			prefix = append(prefix, d)
 		}
 	}
